@@ -1,0 +1,30 @@
+//go:build verif
+
+package memview
+
+import (
+	"mltwist/internal/consoleui"
+	"mltwist/pkg/model"
+)
+
+// Exports for the verification harness (cmd/verifharness, build tag verif),
+// reached through internal/consoleui/verifhook.
+
+// VerifC30ParseAddr runs the argument parser of the "address" command.
+func VerifC30ParseAddr(s string) (uint64, error) {
+	v, err := parseAddr(s)
+	if err != nil {
+		return 0, err
+	}
+	return uint64(v.(model.Addr)), nil
+}
+
+// VerifC32Cursor returns the cursor of the memory view of m; ok is false if the
+// view has no cursor (nothing to show).
+func VerifC32Cursor(m consoleui.Mode) (value int, ok bool) {
+	c := m.(*mode).view.c
+	if c == nil {
+		return 0, false
+	}
+	return c.Value(), true
+}
